@@ -208,6 +208,27 @@ def run(ctx: Ctx) -> None:
     dels = [n for n in walk_scope(sw.node) if isinstance(n, ast.Delete) or (isinstance(n, ast.Expr) and isinstance(n.value, ast.Call) and last_attr(n.value) in ("pop", "popitem"))]
     bulk = [n for n in walk_scope(sw.node) if (isinstance(n, ast.Expr) and isinstance(n.value, ast.Call) and last_attr(n.value) == "clear")
             or (isinstance(n, (ast.Assign, ast.AnnAssign)) and any(isinstance(t, ast.Attribute) and t.attr == FIELD for t in (n.targets if isinstance(n, ast.Assign) else [n.target])))]
+    # removals whose result is kept (`nonce, expires_at = entries.popitem(last=False)`) and anything that *stores* into the
+    # table: the sweep may only delete.  Oldest-first eviction and the prefix sweep both rest on positional order being
+    # arrival order; popping an entry to look at it and putting a live one back appends it at the newest position, so a
+    # younger nonce is evicted (or the sweep stops) in its place.
+    tbl_alias = {t.id for n in walk_scope(sw.node) if isinstance(n, ast.Assign) and isinstance(n.value, ast.Attribute) and n.value.attr == FIELD for t in n.targets if isinstance(t, ast.Name)}
+
+    def is_tbl(e: ast.AST) -> bool:
+        return (isinstance(e, ast.Attribute) and e.attr == FIELD) or (isinstance(e, ast.Name) and e.id in tbl_alias)
+
+    kept_pops = [n for n in walk_scope(sw.node) if isinstance(n, (ast.Assign, ast.AnnAssign)) and n.value is not None and isinstance(n.value, ast.Call) and last_attr(n.value) in ("pop", "popitem")
+                 and isinstance(n.value.func, ast.Attribute) and is_tbl(n.value.func.value)]
+    stores = [n for n in walk_scope(sw.node) if (isinstance(n, (ast.Assign, ast.AugAssign)) and any(isinstance(t, ast.Subscript) and is_tbl(t.value) for t in (n.targets if isinstance(n, ast.Assign) else [n.target])))
+              or (isinstance(n, ast.Expr) and isinstance(n.value, ast.Call) and last_attr(n.value) in ("move_to_end", "setdefault", "update", "__setitem__") and isinstance(n.value.func, ast.Attribute) and is_tbl(n.value.func.value))]
+    ctx.check(not stores, "RF-DOM", "sweep-never-reorders", sw, (stores or kept_pops or [sw.node])[0],
+              ok="the sweep only deletes: positional order of the table stays arrival order",
+              bad=f"`{txt(stores[0])[:60] if stores else ''}` stores into the table during the sweep: an entry that was popped to be examined and is still live is appended at the newest position, so "
+              "oldest-first eviction drops a younger nonce instead (its replay is accepted although fewer than capacity nonces arrived since) and the prefix sweep stops early")
+    if kept_pops and not stores:
+        raise AnalysisError("C23: the sweep pops entries before testing them and never puts a live one back (unsupported shape)")
+    if stores:
+        return
     if not dels and not bulk:
         raise AnalysisError(f"anchor=deletion in _sweep: none found in {sw.fq}")
     now_p = [a.arg for a in sw.node.args.args if a.arg != "self"]
